@@ -53,7 +53,7 @@ TrlTag(o) == IF TrlAfterResp(o) THEN "set-after-response" ELSE IF RespThenErr(o)
              ELSE IF HasCx(o) THEN "context-end" ELSE "plain"
 
 \* ---- conformance of one transcript
-Allowed(o) == { Transcript(s) : s \in Run(o.shape, o.req, o.steps) }
+Allowed(o) == { Transcript(s) : s \in Run(o.shape, o.req, o.mdk, o.steps) }
 \* what the server saw once the client's context ended is not asserted
 Seen(o, t) == [msgs |-> t.msgs, term |-> t.term, hdrs |-> t.hdrs, trls |-> t.trls, reqmd |-> t.reqmd,
                srecv |-> IF HasCx(o) THEN SelectSeq(t.srecv, LAMBDA r : r.i < CxI(o)) ELSE t.srecv]
@@ -77,7 +77,7 @@ CallFails(o, t0) ==
                    \cup If(\E e \in A : MdMatch(e.hdrs, t.hdrs, own), "header:" \o HdrTag(o))
                    \cup If(\E e \in A : MdMatch(e.trls, t.trls, own), "trailer:" \o TrlTag(o))
                    \cup If(\E e \in A : e.srecv = t.srecv, "server-received:" \o TermTag(o))
-                   \cup If(\E e \in A : e.reqmd = -2 \/ e.reqmd = t.reqmd, "request-metadata:" \o TermTag(o))
+                   \cup If(\E e \in A : e.reqmd = -2 \/ e.reqmd = t.reqmd, "request-metadata:" \o (IF o.mdk = 2 THEN "incoming-only-context" ELSE IF o.mdk = 1 THEN "no-metadata" ELSE TermTag(o)))
              IN IF parts = {} THEN {"combination:" \o (IF HdrTag(o) = "set-but-no-message-sent" THEN HdrTag(o) ELSE TermTag(o))}
                 ELSE parts)
        \cup { "copy:" \o t0.alias[k] : k \in 1..Len(t0.alias) }
